@@ -3,6 +3,7 @@ from common import Report
 from facts import hir_walk, op_local, op_place, place_local
 from rules import arms, optables, flow
 from rules.visit import variant_alternatives
+from rules import visit
 
 EXPLANATION = (
     "Static rules over BinOpKind::const_eval / UnOpKind::const_eval (the one operator table used by the constant "
@@ -238,6 +239,45 @@ def run(db, tier):
         calls = set(t.get("f") for _, t in f.calls())
         rep.check("value::ScalarValue::cast_by_ty_sigil" in calls, "R-ONE-TABLE", "%s|cast_by_ty_sigil" % fid, f.loc,
                   "sigil casts go through ScalarValue::cast_by_ty_sigil", "sigil reads of constants do not use cast_by_ty_sigil")
+
+    # the const-variable evaluator's operator arms yield nothing but what the shared table computes: every value-returning
+    # exit of the BinOp / UnOp arm (explicit `return` or the arm's value) is derived from the const_eval call; `?` exits
+    # propagate an operand's error.  (A private shortcut - e.g. a short-circuit that answers before the table is asked -
+    # is a second definition of the operator: named and inline uses of the same expression can then differ.)
+    fce = db.fn(CONSTS_EVAL)
+    from facts import hir_walk as _hw
+    from rules import hirq as _hq
+    lets = _hq.lets(fce)
+    def _vp(a):
+        q = visit._strip(a["p"])
+        return q.get("p") if isinstance(q.get("p"), str) else ""
+    n_exits = 0
+    for m in _hw(fce.hir):
+        if m.get("k") == "Match" and m.get("src") == "Normal" and any(_vp(a).startswith("ast::Expr::") for a in m["arms"]):
+            for a in m["arms"]:
+                vp = _vp(a)
+                if vp not in ("ast::Expr::BinOp", "ast::Expr::UnOp"):
+                    continue
+                table = optables.F_BIN_EVAL_OUTER if vp.endswith("BinOp") else optables.F_UN_EVAL
+                def from_table(e, depth=0):
+                    for y in _hw(e):
+                        if y.get("k") in ("Call", "MCall") and y.get("f") == table:
+                            return True
+                        if depth < 3 and y.get("k") == "Path" and y.get("rk") == "Local" and any(from_table(i, depth + 1) for i in lets.get(y.get("p"), [])):
+                            return True
+                    return False
+                exits = [r["e"] for r in _hw(a["b"]) if r.get("k") == "Ret" and r.get("x") != "desugar:QuestionMark" and "e" in r]
+                if not a["b"].get("never"):
+                    exits.append(a["b"].get("e") if a["b"].get("k") == "Block" and "e" in a["b"] else a["b"])
+                for i, e in enumerate(exits):
+                    n_exits += 1
+                    rep.check(e is not None and from_table(e), "R-ONE-TABLE", "%s|%s|exit %d from table" % (CONSTS_EVAL, vp.rsplit("::", 1)[-1], i),
+                              "%s:%d" % (fce.file, (e or a).get("ln", a["ln"])),
+                              "the value comes from %s" % table.rsplit("::", 2)[-2],
+                              "the %s arm of the const-variable evaluator returns a value that %s did not compute (line %s): the operator has a second "
+                              "definition here, so `const X = <expr>; f(X)` and `f(<expr>)` can differ" % (vp.rsplit("::", 1)[-1], table, (e or a).get("ln")))
+            break
+    rep.floor("R-ONE-TABLE value exits of the evaluator's operator arms", n_exits, 2)
 
     # ---- R-WALKERS
     fa = db.fn(SIMPLIFY_VISIT)
